@@ -38,11 +38,20 @@ var c08Pairs = []c08Pair{
 	{"rnbqkbnr/pppppppp/8/8/8/8/PPPPPPPP/RNBQKBNR w KQkq - 0 1", "7k/5Q2/5K2/8/8/8/8/8 b - - 0 1", 2, 3},
 }
 
+// c08NoCounters: search without WithCounters (as the UCI driver and datagen do) with a hard node budget.
+var c08NoCounters bool
+
 func c08One(s *search.Search, fen string, depth int, stop chan struct{}) c08Obs {
 	b, _ := board.FromFEN(fen)
 	var out bytes.Buffer
 	var cnt search.Counters
-	sc, mv, pm := s.Go(b, search.WithOutput(&out), search.WithCounters(&cnt), search.WithDepth(Depth(depth)), search.WithStop(stop))
+	opts := []search.Option{search.WithOutput(&out), search.WithDepth(Depth(depth)), search.WithStop(stop)}
+	if c08NoCounters {
+		opts = append(opts, search.WithNodes(90))
+	} else {
+		opts = append(opts, search.WithCounters(&cnt))
+	}
+	sc, mv, pm := s.Go(b, opts...)
 	res := searchRes{Score: sc, Move: mv, Ponder: pm, Nodes: cnt.Nodes, Out: out.String()}
 	return c08Observe(s, &res)
 }
@@ -62,7 +71,8 @@ func runC08Sched(r *ev.Run) {
 		Sched   []int   `json:"schedule,omitempty"`
 	}
 	enc := json.NewEncoder(os.Stdout)
-	for _, pr := range c08Pairs {
+	for pi, pr := range c08Pairs {
+		c08NoCounters = pi%2 == 1
 		// solo baselines (under the scheduler too, single thread, so that the polls take the same path)
 		var wantA, wantB c08Obs
 		vsched.New(nil, 1<<30).Run(func() { wantA = c08One(search.New(32000), pr.A, pr.DA, make(chan struct{})) })
